@@ -18,16 +18,13 @@ FUNCS = [
     ("pipelineCall", "framework/values.py", "Pipeline", "_call"),
     ("replaceCombiner", "framework/values.py", None, "replace_combiner"),
     ("listCombiner", "framework/values.py", None, "list_combiner"),
-    ("registerValueModifier", "framework/values.py", "ValuesManager", "register_value_modifier"),
     ("eventEmit", "framework/event.py", "EventChannel", "emit"),
     ("lifecycleSetState", "framework/lifecycle.py", "LifeCycleManager", "set_state"),
     ("lifecycleValidNext", "framework/lifecycle.py", "LifeCycleState", "valid_next_state"),
-    ("lifecycleEnter", "framework/lifecycle.py", "LifeCycleState", "enter"),
     ("artifactLoad", "framework/artifact/artifact.py", "Artifact", "load"),
     ("artifactWrite", "framework/artifact/artifact.py", "Artifact", "write"),
     ("artifactRemove", "framework/artifact/artifact.py", "Artifact", "remove"),
     ("artifactReplace", "framework/artifact/artifact.py", "Artifact", "replace"),
-    ("artifactClearCache", "framework/artifact/artifact.py", "Artifact", "clear_cache"),
     ("streamKey", "framework/randomness/stream.py", "RandomnessStream", "_key"),
     ("streamGetDraw", "framework/randomness/stream.py", "RandomnessStream", "get_draw"),
     ("streamFilterForProbability", "framework/randomness/stream.py", "RandomnessStream", "filter_for_probability"),
@@ -36,12 +33,7 @@ FUNCS = [
     ("createSimulants", "framework/population/manager.py", "PopulationManager", "_create_simulants"),
     ("resourceSortedNodes", "framework/resource.py", "ResourceManager", "sorted_nodes"),
     ("viewGet", "framework/population/population_view.py", "PopulationView", "get"),
-    ("viewUpdate", "framework/population/population_view.py", "PopulationView", "update"),
     ("engineRun", "framework/engine.py", "SimulationContext", "run"),
-    ("engineStep", "framework/engine.py", "SimulationContext", "step"),
-    ("engineInitializeSimulants", "framework/engine.py", "SimulationContext", "initialize_simulants"),
-    ("engineFinalize", "framework/engine.py", "SimulationContext", "finalize"),
-    ("engineReport", "framework/engine.py", "SimulationContext", "report"),
 ]
 
 
